@@ -524,6 +524,14 @@ func mergeResponseHeaders(ctx *types.HttpContext, headers *utils.ParameterBag) {
 	sort.Strings(keys)
 	merged := http.Header{}
 	for _, k := range keys {
+		if len(all[k]) == 0 {
+			// a field without values stays a field without values: it is what
+			// suppresses a header net/http would add by itself
+			if name := http.CanonicalHeaderKey(k); merged[name] == nil {
+				merged[name] = nil
+			}
+			continue
+		}
 		for _, v := range all[k] {
 			merged.Add(k, v)
 		}
